@@ -113,6 +113,9 @@ var c10Failing = []string{
 	`for zi = 2 {zz_boom(zi)}`,
 	`for zi = 2 {for zj = 1:3 {zz_boom2(zi, zj)}}`,
 	`zz_boom2(1, 2)`,
+	// panics raised inside text handed to eval() / unjson() (the evaluator is re-entered through an extension)
+	`eval("zz_boom(1)")`, `eval("(func(n) {self(n + 1)})(0)")`, `(() => eval("verif_panic()"))()`, `for zi = 2 {eval("zz_boom2(1, 2)")}`, `eval("verif_rtpanic()")`,
+	`unjson("(func(n) {self(n + 1)})(0)")`, `catch(eval("zz_boom(1)"))`, `(zsecret => eval("zz_boom(zsecret)"))(3)`, `eval("for zi = 3 {for zj = 2 {zz_boom(zi)}}")`, `eval("eval(\"zz_boom(1)\")")`,
 	// calls refused by an extension for one of their arguments
 	`image.draw("zimg", [1, 2])`, `image.draw("zimg", [300, 0, 0])`, `image.draw_hsl("zimg", [1])`, `image.draw_ycbcr("zimg", [1, 2, 3, 4, 5])`, `(() => image.draw("zimg", "red"))()`,
 	`image.line_to("zimg", "x", 1)`, `image.move_to("zimg_none", 1, 1)`, `image.add("zimg", "zimg_none")`, `image.set("zimg", 1, 1, [1])`, `image.quad_to("zimg", 1, 1, 2)`, `image.draw("zimg", [1, 2, verif_panic()])`,
